@@ -43,7 +43,7 @@ HiDel  == {RR(o, "ANY", t, 0, 0) : o \in {NA, NB, NC}, t \in {"A", "CAA", "CNAME
           \cup {RR(NB, "NONE", "CAA", 0, 1), RR(NB, "NONE", "T65280", 0, 1)}
 HiUpd  == HiAdd \cup HiDel
 MsgsHi1 == {[pre |-> <<>>, upd |-> <<u>>] : u \in HiUpd}
-MsgsHi2 == {[pre |-> <<>>, upd |-> <<u, v>>] : u \in HiUpd, v \in {w \in HiUpd : w.o = u.o}}
+MsgsHi2 == UNION {{[pre |-> <<>>, upd |-> <<u, v>>] : v \in {w \in HiUpd : w.o = u.o}} : u \in HiUpd}
 MsgsHiP == {[pre |-> <<RR(o, c, t, 0, 0)>>, upd |-> <<RR(ND, "IN", "A", 300, 1)>>] :
               o \in {NB, NC}, c \in {"ANY", "NONE"}, t \in {"CAA", "CNAME", "A", "ANY", "T65280"}}
 
@@ -91,8 +91,8 @@ SetupLite == {[pre |-> <<>>, upd |-> <<u>>] : u \in DelRRs \cup DelSets \cup {RR
 \* a CNAME add together with another well-formed update RR for the same owner, in both orders
 \* (e.g. delete the A RRset, add the CNAME): what a signed zone must handle like an unsigned one
 CnAdds == {RR(o, "IN", "CNAME", 300, rd) : o \in Own, rd \in Rds}
-MsgsCn == {[pre |-> <<>>, upd |-> <<x, y>>] : x \in CnAdds, y \in {w \in GoodUpd : w.o = x.o}}
-          \cup {[pre |-> <<>>, upd |-> <<y, x>>] : x \in CnAdds, y \in {w \in GoodUpd : w.o = x.o}}
+MsgsCn == UNION {{[pre |-> <<>>, upd |-> <<x, y>>] : y \in {w \in GoodUpd : w.o = x.o}}
+                  \cup {[pre |-> <<>>, upd |-> <<y, x>>] : y \in {w \in GoodUpd : w.o = x.o}} : x \in CnAdds}
 \* serial corner: an SOA update RR at distance 2^31 - 1, 2^31 (RFC 1982: undefined) and 2^31 + 1
 \* from the zone serial, alone and together with a content change in the same message, from
 \* serials 0, 10, 2^31 - 2, 2^32 - 6 and 2^32 - 1.  (The SOA serials are computed for every start
